@@ -4,6 +4,7 @@ mod checks;
 mod driver;
 mod model;
 mod pool;
+mod spaces;
 mod subjects;
 mod util;
 
@@ -23,13 +24,22 @@ struct CheckDef
 
 fn registry() -> Vec<CheckDef>
 {
-	vec![CheckDef {
-		id: "C14",
-		drive: checks::c14::drive,
-		work: checks::c14::work,
-		case_timeout_ms: 10_000,
-		level_text: "exhaustive enumeration of all strings up to a length bound over the lexical alphabet and of all fragment concatenations, each lexed by both real lexers and compared with an independent reference lexer and with each other",
-	}]
+	vec![
+		CheckDef {
+			id: "C14",
+			drive: checks::c14::drive,
+			work: checks::c14::work,
+			case_timeout_ms: 10_000,
+			level_text: "exhaustive enumeration of all strings up to a length bound over the lexical alphabet and of all fragment concatenations, each lexed by both real lexers and compared with an independent reference lexer and with each other",
+		},
+		CheckDef {
+			id: "C15",
+			drive: checks::c15::drive,
+			work: checks::c15::work,
+			case_timeout_ms: 20_000,
+			level_text: "exhaustive enumeration of byte strings, fragment concatenations and token sequences (full and viable-prefix breadth-first from the empty input and from non-initial contexts), density/nesting pumps and limit probes through the real second-generation lexer, parser, header extraction and XML dumps, under a totality oracle and the reference lexer",
+		},
+	]
 }
 
 fn find(id: &str) -> CheckDef
